@@ -77,6 +77,8 @@ def fragment(data_set, max_pdu_length, normal, last):
     """
     # maximum PDU length of 0 means 'no limit'
     maxsize = max_pdu_length - 6 if max_pdu_length else max(len(data_set), 1)
+    if maxsize < 1:
+        raise ValueError('Maximum PDU length {0} can not carry any data'.format(max_pdu_length))
     for chunk, has_next in chunks(data_set, maxsize):
         yield chunk, normal if has_next else last
 
@@ -98,6 +100,8 @@ def fragment_file(fp, max_pdu_length, normal, last):
     """
     # maximum PDU length of 0 means 'no limit'
     maxsize = max_pdu_length - 6 if max_pdu_length else -1
+    if maxsize == 0 or maxsize < -1:
+        raise ValueError('Maximum PDU length {0} can not carry any data'.format(max_pdu_length))
     while True:
         chunk = fp.read(maxsize)
         if not chunk:
